@@ -162,18 +162,18 @@ def ErrorStatusNoEffects (fixed : Bool) : Prop :=
 answered 400 and the event is sent upstream all the same. -/
 theorem error_status_no_effects_refuted : ¬ ErrorStatusNoEffects false := by
   intro h
-  have := h (.batch false { datasetBad := true } [.nonTrace])
+  have := h .peer (.batch false { datasetBad := true } [.nonTrace])
   revert this; decide
 
 /-- the same defect through the second missing `return` (environment lookup) -/
 theorem error_status_no_effects_refuted_env : ¬ ErrorStatusNoEffects false := by
   intro h
-  have := h (.batch true { envFails := true } [.localOk])
+  have := h .incoming (.batch true { envFails := true } [.localOk])
   revert this; decide
 
 /-- What holds of the code as it is: every request that does not reach one of `batch`'s two
 missing `return`s. -/
-theorem error_status_no_effects_partial (r : Req) (hd : hitsBatchDefect r = false)
+theorem error_status_no_effects_partial (l : Listener) (r : Req) (hd : hitsBatchDefect r = false)
     (he : (handle false l r).isError = true) : (handle false l r).eff.sent = [] := by
   cases r with
   | event viaMux f it =>
@@ -199,7 +199,7 @@ theorem error_status_no_effects_partial (r : Req) (hd : hitsBatchDefect r = fals
 
 /-- Proved for the repaired control flow, for every request. -/
 theorem error_status_no_effects_fixed : ErrorStatusNoEffects true := by
-  intro r he
+  intro l r he
   cases r with
   | event viaMux f it =>
     simp only [handle, handleEvent] at he ⊢
@@ -231,22 +231,22 @@ def OneStatus (fixed : Bool) : Prop := ∀ (l : Listener) (r : Req), (handle fix
 list. -/
 theorem one_status_refuted : ¬ OneStatus false := by
   intro h
-  have := h (.batch false { datasetBad := true } [.nonTrace])
+  have := h .peer (.batch false { datasetBad := true } [.nonTrace])
   revert this; decide
 
-theorem answers_event (viaMux : Bool) (f : Faults) (it : Item) :
+theorem answers_event (l : Listener) (viaMux : Bool) (f : Faults) (it : Item) :
     (handleEvent l viaMux f it).answers = 1 := by
   simp only [handleEvent]
   repeat' split
   all_goals simp [Out.answers]
 
-theorem answers_otlpHttp (fixed logs : Bool) (f : Faults) (items : List Item) :
+theorem answers_otlpHttp (fixed : Bool) (l : Listener) (logs : Bool) (f : Faults) (items : List Item) :
     (handleOtlpHttp fixed l logs f items).answers = 1 := by
   simp only [handleOtlpHttp, processOTLP]
   repeat' split
   all_goals simp [Out.answers]
 
-theorem answers_otlpGrpc (fixed logs : Bool) (f : Faults) (items : List Item) :
+theorem answers_otlpGrpc (fixed : Bool) (l : Listener) (logs : Bool) (f : Faults) (items : List Item) :
     (handleOtlpGrpc fixed l logs f items).answers = 1 := by
   simp only [handleOtlpGrpc, processOTLP]
   repeat' split
@@ -254,20 +254,20 @@ theorem answers_otlpGrpc (fixed logs : Bool) (f : Faults) (items : List Item) :
 
 /-- What holds of the code as it is: exactly one answer for every request that does not reach one
 of `batch`'s missing `return`s … -/
-theorem one_status_partial (r : Req) (hd : hitsBatchDefect r = false) :
+theorem one_status_partial (l : Listener) (r : Req) (hd : hitsBatchDefect r = false) :
     (handle false l r).answers = 1 := by
   cases r with
-  | event viaMux f it => exact answers_event viaMux f it
+  | event viaMux f it => exact answers_event l viaMux f it
   | batch viaMux f items =>
     simp only [handle, handleBatch, hitsBatchDefect] at hd ⊢
     rcases f with ⟨kb, rf, db, ef, pf, cb⟩
     cases viaMux <;> cases kb <;> cases rf <;> cases db <;> cases ef <;> cases pf <;>
       simp_all [Out.answers]
-  | otlpHttp logs f items => exact answers_otlpHttp false logs f items
-  | otlpGrpc logs f items => exact answers_otlpGrpc false logs f items
+  | otlpHttp logs f items => exact answers_otlpHttp false l logs f items
+  | otlpGrpc logs f items => exact answers_otlpGrpc false l logs f items
 
 /-- … and the hypothesis is exact: every request that does reach one gets at least two. -/
-theorem one_status_defect_exact (r : Req) (hd : hitsBatchDefect r = true) :
+theorem one_status_defect_exact (l : Listener) (r : Req) (hd : hitsBatchDefect r = true) :
     2 ≤ (handle false l r).answers := by
   cases r with
   | batch viaMux f items =>
@@ -281,16 +281,16 @@ theorem one_status_defect_exact (r : Req) (hd : hitsBatchDefect r = true) :
 
 /-- Proved for the repaired control flow, for every request. -/
 theorem one_status_fixed : OneStatus true := by
-  intro r
+  intro l r
   cases r with
-  | event viaMux f it => exact answers_event viaMux f it
+  | event viaMux f it => exact answers_event l viaMux f it
   | batch viaMux f items =>
     simp only [handle, handleBatch]
     rcases f with ⟨kb, rf, db, ef, pf, cb⟩
     cases viaMux <;> cases kb <;> cases rf <;> cases db <;> cases ef <;> cases pf <;>
       simp_all [Out.answers]
-  | otlpHttp logs f items => exact answers_otlpHttp true logs f items
-  | otlpGrpc logs f items => exact answers_otlpGrpc true logs f items
+  | otlpHttp logs f items => exact answers_otlpHttp true l logs f items
+  | otlpGrpc logs f items => exact answers_otlpGrpc true l logs f items
 
 /-! ## no_success_after_discard -/
 
@@ -307,38 +307,38 @@ def NoSuccessAfterDiscard (fixed : Bool) : Prop :=
 looked up is answered 200 although its span was never looked at. -/
 theorem no_success_after_discard_refuted : ¬ NoSuccessAfterDiscard false := by
   intro h
-  have := h (.otlpHttp false { envFails := true } [.localOk]) (by decide) 0 (by decide)
+  have := h .incoming (.otlpHttp false { envFails := true } [.localOk]) (by decide) 0 (by decide)
   rcases this with h1 | ⟨sts, h2, _⟩
   · revert h1; decide
   · revert h2; simp [handle, handleOtlpHttp, processOTLP]
 
 /-- the same on the other three OTLP entry points: HTTP logs, gRPC traces, gRPC logs -/
-theorem no_success_after_discard_refuted_all (r : Req)
+theorem no_success_after_discard_refuted_all (l : Listener) (r : Req)
     (hr : r = .otlpHttp true { envFails := true } [.nonTrace] ∨
           r = .otlpGrpc false { envFails := true } [.peer] ∨
           r = .otlpGrpc true { envFails := true } [.localOk]) :
     (handle false l r).isError = false ∧ (handle false l r).eff.attempts = [] ∧
       ¬ Reported (handle false l r) 0 := by
-  rcases hr with rfl | rfl | rfl <;>
+  rcases hr with rfl | rfl | rfl <;> cases l <;>
     refine ⟨by decide, by decide, ?_⟩ <;>
     rintro ⟨sts, h2, _⟩ <;>
     simp [handle, handleOtlpHttp, handleOtlpGrpc, processOTLP] at h2
 
-theorem attempts_loop_false (items : List Item) (i : Nat) (hi : i < items.length) :
+theorem attempts_loop_false (l : Listener) (items : List Item) (i : Nat) (hi : i < items.length) :
     i ∈ (loop l false 0 items).eff.attempts := by
   have hg : items[i]? = some items[i] := List.getElem?_eq_getElem hi
   have := (loop_spec l false items 0 i _ hg).2.2.2
   rw [Nat.zero_add] at this
   exact this.mpr (itemRes_attempted l _)
 
-theorem nsad_event (viaMux : Bool) (f : Faults) (it : Item)
+theorem nsad_event (l : Listener) (viaMux : Bool) (f : Faults) (it : Item)
     (hs : (handleEvent l viaMux f it).isError = false) :
     0 ∈ (handleEvent l viaMux f it).eff.attempts := by
   simp only [handleEvent] at hs ⊢
   repeat' split
   all_goals simp_all [Out.isError, Act.isError]
 
-theorem nsad_batch (fixed viaMux : Bool) (f : Faults) (items : List Item)
+theorem nsad_batch (fixed : Bool) (l : Listener) (viaMux : Bool) (f : Faults) (items : List Item)
     (hs : (handleBatch fixed l viaMux f items).isError = false) (i : Nat) (hi : i < items.length) :
     Reported (handleBatch fixed l viaMux f items) i := by
   have hl := loop_sts_length l true items 0
@@ -349,25 +349,25 @@ theorem nsad_batch (fixed viaMux : Bool) (f : Faults) (items : List Item)
 
 /-- What holds of the code as it is: every request that does not reach the `return nil` of
 `processOTLPRequest*`. -/
-theorem no_success_after_discard_partial (r : Req) (hd : hitsOtlpDefect r = false)
+theorem no_success_after_discard_partial (l : Listener) (r : Req) (hd : hitsOtlpDefect r = false)
     (hs : (handle false l r).isError = false) (i : Nat) (hi : i < r.items.length) :
     i ∈ (handle false l r).eff.attempts ∨ Reported (handle false l r) i := by
   cases r with
   | event viaMux f it =>
     simp only [Req.items, List.length_singleton, Nat.lt_one_iff] at hi
     subst hi
-    exact Or.inl (nsad_event viaMux f it hs)
-  | batch viaMux f items => exact Or.inr (nsad_batch false viaMux f items hs i hi)
+    exact Or.inl (nsad_event l viaMux f it hs)
+  | batch viaMux f items => exact Or.inr (nsad_batch false l viaMux f items hs i hi)
   | otlpHttp logs f items =>
     left
-    have ha := attempts_loop_false items i hi
+    have ha := attempts_loop_false l items i hi
     simp only [handle, handleOtlpHttp, processOTLP, hitsOtlpDefect] at hs hd ⊢
     rcases f with ⟨kb, rf, db, ef, pf, cb⟩
     cases logs <;> cases kb <;> cases rf <;> cases ef <;> cases pf <;> cases cb <;>
       simp_all [Out.isError, Act.isError]
   | otlpGrpc logs f items =>
     left
-    have ha := attempts_loop_false items i hi
+    have ha := attempts_loop_false l items i hi
     simp only [handle, handleOtlpGrpc, processOTLP, hitsOtlpDefect] at hs hd ⊢
     rcases f with ⟨kb, rf, db, ef, pf, cb⟩
     cases logs <;> cases kb <;> cases rf <;> cases ef <;> cases pf <;>
@@ -375,23 +375,23 @@ theorem no_success_after_discard_partial (r : Req) (hd : hitsOtlpDefect r = fals
 
 /-- Proved for the repaired control flow, for every request. -/
 theorem no_success_after_discard_fixed : NoSuccessAfterDiscard true := by
-  intro r hs i hi
+  intro l r hs i hi
   cases r with
   | event viaMux f it =>
     simp only [Req.items, List.length_singleton, Nat.lt_one_iff] at hi
     subst hi
-    exact Or.inl (nsad_event viaMux f it hs)
-  | batch viaMux f items => exact Or.inr (nsad_batch true viaMux f items hs i hi)
+    exact Or.inl (nsad_event l viaMux f it hs)
+  | batch viaMux f items => exact Or.inr (nsad_batch true l viaMux f items hs i hi)
   | otlpHttp logs f items =>
     left
-    have ha := attempts_loop_false items i hi
+    have ha := attempts_loop_false l items i hi
     simp only [handle, handleOtlpHttp, processOTLP] at hs ⊢
     rcases f with ⟨kb, rf, db, ef, pf, cb⟩
     cases logs <;> cases kb <;> cases rf <;> cases ef <;> cases pf <;> cases cb <;>
       simp_all [Out.isError, Act.isError]
   | otlpGrpc logs f items =>
     left
-    have ha := attempts_loop_false items i hi
+    have ha := attempts_loop_false l items i hi
     simp only [handle, handleOtlpGrpc, processOTLP] at hs ⊢
     rcases f with ⟨kb, rf, db, ef, pf, cb⟩
     cases logs <;> cases kb <;> cases rf <;> cases ef <;> cases pf <;>
@@ -400,7 +400,7 @@ theorem no_success_after_discard_fixed : NoSuccessAfterDiscard true := by
 /-! ## batch_status_list -/
 
 /-- a status list written by `batch` is the loop's list, and the effects are the loop's effects -/
-theorem batch_list_is_loop (fixed viaMux : Bool) (f : Faults) (items : List Item) (sts : List Int)
+theorem batch_list_is_loop (fixed : Bool) (l : Listener) (viaMux : Bool) (f : Faults) (items : List Item) (sts : List Int)
     (h : Act.list sts ∈ (handleBatch fixed l viaMux f items).acts) :
     sts = (loop l true 0 items).sts ∧ (handleBatch fixed l viaMux f items).eff = (loop l true 0 items).eff := by
   simp only [handleBatch] at h ⊢
@@ -416,7 +416,7 @@ swallows by design); 429 exactly when the collector refused it because its queue
 exactly the events for which the collector is full; 400 exactly when the event is invalid (empty
 data); and the event went to a sink exactly when it is non-empty and `processEvent` sends it
 there. -/
-theorem batch_status_list (fixed viaMux : Bool) (f : Faults) (items : List Item) (sts : List Int)
+theorem batch_status_list (fixed : Bool) (l : Listener) (viaMux : Bool) (f : Faults) (items : List Item) (sts : List Int)
     (h : Act.list sts ∈ (handle fixed l (.batch viaMux f items)).acts) :
     sts.length = items.length ∧
     ∀ (i : Nat) (it : Item), items[i]? = some it →
@@ -428,7 +428,7 @@ theorem batch_status_list (fixed viaMux : Bool) (f : Faults) (items : List Item)
       (sts[i]? = some stBadRequest ↔ it = .emptyData) ∧
       (∀ s, (i, s) ∈ o.eff.sent ↔ (it ≠ .emptyData ∧ processEvent l it = .sent s)) := by
   simp only [handle] at h ⊢
-  obtain ⟨e1, e2⟩ := batch_list_is_loop fixed viaMux f items sts h
+  obtain ⟨e1, e2⟩ := batch_list_is_loop fixed l viaMux f items sts h
   refine ⟨by rw [e1]; exact loop_sts_length l true items 0, ?_⟩
   intro i it hit
   obtain ⟨a, b, c, _⟩ := loop_spec l true items 0 i it hit
@@ -437,37 +437,86 @@ theorem batch_status_list (fixed viaMux : Bool) (f : Faults) (items : List Item)
   cases it <;> simp [itemRes, processEvent]
 
 /-- On the fault-free path the status list is the whole response (code as it is and repaired). -/
-theorem batch_fault_free (fixed viaMux : Bool) (items : List Item) :
+theorem batch_fault_free (fixed : Bool) (l : Listener) (viaMux : Bool) (items : List Item) :
     (handle fixed l (.batch viaMux {} items)).acts = [.list (loop l true 0 items).sts] := by
   cases fixed <;> cases viaMux <;> simp [handle, handleBatch]
 
 /-- A full queue on the single-event endpoint is answered with an error status and nothing was
 buffered (both variants). -/
-theorem event_queue_full (fixed viaMux : Bool) :
+theorem event_queue_full (fixed : Bool) (l : Listener) (viaMux : Bool) :
     (handle fixed l (.event viaMux {} .localFull)).isError = true ∧
       (handle fixed l (.event viaMux {} .localFull)).eff.sent = [] := by
-  cases fixed <;> cases viaMux <;> decide
+  cases fixed <;> cases l <;> cases viaMux <;> decide
+
+/-! ## the listener kind -/
+
+/-- The router kind (client-facing or peer listener) does not influence the answer: same response
+acts, same statuses, same refusals, same attempts — in particular a span refused because the
+peer queue is full is listed 429 exactly like one refused by the incoming queue
+(`batch_status_list` holds for both `l`). -/
+theorem listener_irrelevant_to_response (fixed : Bool) (l l' : Listener) (r : Req) :
+    (handle fixed l r).acts = (handle fixed l' r).acts := by
+  have hl : ∀ (chk : Bool) (items : List Item) (k : Nat),
+      (loop l chk k items).sts = (loop l' chk k items).sts := by
+    intro chk items
+    induction items with
+    | nil => intro k; simp [loop]
+    | cons it rest ih =>
+      intro k
+      simp only [loop, ih (k + 1)]
+      cases l <;> cases l' <;> cases it <;> cases chk <;> simp [itemRes, processEvent]
+  cases r with
+  | event viaMux f it =>
+    simp only [handle, handleEvent]
+    cases l <;> cases l' <;> cases it <;> simp only [processEvent] <;> (repeat' split) <;> simp_all
+  | batch viaMux f items =>
+    simp only [handle, handleBatch, hl true items 0]
+    repeat' split
+    all_goals simp_all
+  | otlpHttp logs f items =>
+    simp only [handle, handleOtlpHttp, processOTLP]
+    repeat' split
+    all_goals simp_all
+  | otlpGrpc logs f items =>
+    simp only [handle, handleOtlpGrpc, processOTLP]
+    repeat' split
+    all_goals simp_all
+
+/-- It only selects the collector queue: every span the collector accepted went into the queue of
+the listener the request arrived on. -/
+theorem collector_queue_is_listeners (l : Listener) (chk : Bool) (items : List Item) (k i : Nat) (q : Queue)
+    (h : (i, Sink.collector q) ∈ (loop l chk k items).eff.sent) : q = collectorQueue l := by
+  induction items generalizing k with
+  | nil => simp [loop] at h
+  | cons it rest ih =>
+    simp only [loop, List.mem_append] at h
+    rcases h with h | h
+    · cases it <;> cases chk <;> simp [itemRes, processEvent] at h <;> exact h.2
+    · exact ih (k + 1) h
 
 /-! ## Non-vacuity: concrete requests, evaluated by the kernel -/
 
+example : (handle true .peer (.batch true {} [.localFull, .localOk])).acts = [.list [429, 202]] := by decide
+example : (handle true .peer (.batch true {} [.localFull, .localOk])).eff.sent = [(1, .collector .addSpanFromPeer)] := by
+  decide
 -- the defect as observed on the real handler: 400, error document, then the status list; one event
 -- upstream, one span in the collector
-example : handle false l (.batch false { datasetBad := true } [.nonTrace, .localOk]) =
-    ⟨[.err 400, .list [202, 202]], { sent := [(0, .upstream), (1, .collector)], attempts := [0, 1] }⟩ := by
+example : handle false .incoming (.batch false { datasetBad := true } [.nonTrace, .localOk]) =
+    ⟨[.err 400, .list [202, 202]], { sent := [(0, .upstream), (1, .collector .addSpan)], attempts := [0, 1] }⟩ := by
   decide
-example : handle true l (.batch false { datasetBad := true } [.nonTrace, .localOk]) = ⟨[.err 400], {}⟩ := by
+example : handle true .incoming (.batch false { datasetBad := true } [.nonTrace, .localOk]) = ⟨[.err 400], {}⟩ := by
   decide
-example : handle false l (.batch true { envFails := true, parseFails := true } []) =
+example : handle false .peer (.batch true { envFails := true, parseFails := true } []) =
     ⟨[.err 400, .err 400], {}⟩ := by decide
-example : handle false l (.batch true {} [.emptyData, .noData, .nonTrace, .peer, .localOk, .localFull, .probe]) =
+example : handle false .peer (.batch true {} [.emptyData, .noData, .nonTrace, .peer, .localOk, .localFull, .probe]) =
     ⟨[.list [400, 202, 202, 202, 202, 429, 202]],
-     { sent := [(1, .upstream), (2, .upstream), (3, .peer), (4, .collector)], refused := [5],
+     { sent := [(1, .upstream), (2, .upstream), (3, .peer), (4, .collector .addSpanFromPeer)], refused := [5],
        attempts := [1, 2, 3, 4, 5, 6] }⟩ := by decide
-example : handle false l (.otlpHttp false { envFails := true } [.peer, .localOk]) = ⟨[.otlpOk], {}⟩ := by decide
-example : handle true l (.otlpHttp false { envFails := true } [.peer, .localOk]) = ⟨[.otlpFail 500], {}⟩ := by decide
-example : handle false l (.otlpGrpc true {} [.nonTrace, .localFull]) =
+example : handle false .incoming (.otlpHttp false { envFails := true } [.peer, .localOk]) = ⟨[.otlpOk], {}⟩ := by decide
+example : handle true .incoming (.otlpHttp false { envFails := true } [.peer, .localOk]) = ⟨[.otlpFail 500], {}⟩ := by decide
+example : handle false .incoming (.otlpGrpc true {} [.nonTrace, .localFull]) =
     ⟨[.grpc 0], { sent := [(0, .upstream)], refused := [1], attempts := [0, 1] }⟩ := by decide
-example : handle false l (.event true {} .peer) = ⟨[], { sent := [(0, .peer)], attempts := [0] }⟩ := by decide
+example : handle false .peer (.event true {} .peer) = ⟨[], { sent := [(0, .peer)], attempts := [0] }⟩ := by decide
 example : hitsBatchDefect (.batch true { keyBlank := true, datasetBad := true } []) = false := by decide
 
 end Refinery.Props.C23
